@@ -40,15 +40,19 @@ Record(chks) ==
      /\ bad' = IF Len(bad) >= 60 THEN bad ELSE bad \o ns
 
 OccOf(p, i) == {SqName[s] : s \in {t \in Squares : p.bd[t] = i}}
-SnapChecks(p, snap, prop) ==
-  << <<snap.fen = RenderFen(p), prop, "fen", RenderFen(p)>>,
-     <<\A i \in 1 .. 12 : ToS(snap.occ[i]) = OccOf(p, i), prop, "occupancy words", RenderPlacement(p.bd)>>,
-     <<snap.h = HashOf(p, KT), "C06", "hash differs from XOR of the keys of " \o prop \o " position", ToString(HashOf(p, KT))>>,
-     <<snap.ph = PawnHashOf(p, KT), "C06", "pawn hash differs from XOR of the pawn keys", ToString(PawnHashOf(p, KT))>> >>
+\* (inside an action TLC re-evaluates a LET definition at every reference but an operator argument only once:
+\*  rendered FEN and hashes are therefore computed once and passed down as arguments)
+SnapChecksX(p, snap, prop, fen, h, ph) ==
+  << <<snap.fen = fen, prop, "fen", fen>>,
+     <<\A i \in 1 .. 12 : ToS(snap.occ[i]) = OccOf(p, i), prop, "occupancy words", fen>>,
+     <<snap.h = h, "C06", "hash differs from XOR of the keys of " \o prop \o " position", ToString(h)>>,
+     <<snap.ph = ph, "C06", "pawn hash differs from XOR of the pawn keys", ToString(ph)>> >>
+SnapChecks(p, snap, prop) == SnapChecksX(p, snap, prop, RenderFen(p), HashOf(p, KT), PawnHashOf(p, KT))
 
 \* after a mismatch continue from what the implementation holds (if readable)
-Resync(p, snap) == IF snap.fen = RenderFen(p) THEN p
-                   ELSE IF ParseFen(snap.fen).ok THEN PosOfFen(snap.fen) ELSE p
+ResyncX(p, snap, fen) == IF snap.fen = fen THEN p
+                         ELSE IF ParseFen(snap.fen).ok THEN PosOfFen(snap.fen) ELSE p
+Resync(p, snap) == ResyncX(p, snap, RenderFen(p))
 
 NonTrivial(p, L) ==
   \/ InCheck(p.bd, p.stm) \/ p.cr # {} \/ p.ep # -1 \/ L = {}
@@ -69,6 +73,9 @@ Load ==
                 /\ oh' = oh
         /\ UNCHANGED ntr
 
+\* continue from position np (the argument is evaluated once)
+SetPos(np) == pos' = np /\ lg' = IF np = pos THEN lg ELSE Legal(np)
+
 Gen ==
   /\ Ev.ev = "gen"
   /\ LET exp == UciSet(lg)
@@ -85,43 +92,41 @@ Gen ==
                 <<(Ev.legal = <<>>) = (lg = {}), "C05", "generate_legal_moves is empty exactly when the position is checkmate or stalemate", ToString(lg = {})>> >>
              \o SnapChecks(pos, Ev.snap, "C03"))
         /\ ntr' = IF NonTrivial(pos, lg) THEN ntr \cup {l} ELSE ntr
-        /\ LET np == Resync(pos, Ev.snap)
-           IN /\ pos' = np /\ lg' = IF np = pos THEN lg ELSE Legal(np)
+        /\ SetPos(Resync(pos, Ev.snap))
         /\ oh' = <<Ev.snap.h, Ev.snap.ph>>
         /\ UNCHANGED stack
 
+MakeJudge(cand, known, np, rp) ==
+  /\ Record(
+       (IF known THEN SnapChecks(np, Ev.snap, "C02") ELSE <<>>) \o
+       << <<Ev.valid = IsValid(rp), "C05", "is_valid after make", ToString(IsValid(rp))>>,
+          <<Ev.valid = (cand # {}) \/ ~known, "C01", "move passes the validity filter iff legal", ToString(cand # {})>>,
+          <<Xor64(oh[1], Ev.d) = Ev.snap.h, "C06", "hash before XOR zobrist_xor(move) = hash after", ToString(Xor64(oh[1], Ev.d))>>,
+          <<Xor64(oh[2], Ev.pd) = Ev.snap.ph, "C06", "pawn hash before XOR delta = pawn hash after", ToString(Xor64(oh[2], Ev.pd))>> >>)
+  /\ stack' = Append(stack, [pos |-> pos, lg |-> lg])
+  /\ pos' = rp
+  /\ lg' = IF Ev.valid THEN Legal(rp) ELSE {}
+  /\ oh' = <<Ev.snap.h, Ev.snap.ph>>
+  /\ UNCHANGED ntr
+MakeApply(cand, known, np) == MakeJudge(cand, known, np, Resync(np, Ev.snap))
+MakeWith(cand, pcand) ==
+  MakeApply(cand, pcand # {}, IF pcand # {} THEN Apply(pos, CHOOSE x \in pcand : TRUE) ELSE PosOfFen(Ev.snap.fen))
+MakeCand(cand) == MakeWith(cand, IF cand # {} THEN cand ELSE {m \in PseudoLegal(pos) : Uci(m) = Ev.uci})
 Make ==
   /\ Ev.ev = "make"
-  /\ LET cand == {m \in lg : Uci(m) = Ev.uci}
-         pcand == IF cand # {} THEN cand ELSE {m \in PseudoLegal(pos) : Uci(m) = Ev.uci}
-         known == pcand # {}
-         m == CHOOSE x \in pcand : TRUE
-         np == IF known THEN Apply(pos, m) ELSE PosOfFen(Ev.snap.fen)
-         rp == Resync(np, Ev.snap)
-     IN /\ Record(
-             (IF known THEN SnapChecks(np, Ev.snap, "C02") ELSE <<>>) \o
-             << <<Ev.valid = IsValid(rp), "C05", "is_valid after make", ToString(IsValid(rp))>>,
-                <<Ev.valid = (cand # {}) \/ ~known, "C01", "move passes the validity filter iff legal", ToString(cand # {})>>,
-                <<Xor64(oh[1], Ev.d) = Ev.snap.h, "C06", "hash before XOR zobrist_xor(move) = hash after", ToString(Xor64(oh[1], Ev.d))>>,
-                <<Xor64(oh[2], Ev.pd) = Ev.snap.ph, "C06", "pawn hash before XOR delta = pawn hash after", ToString(Xor64(oh[2], Ev.pd))>> >>)
-        /\ stack' = Append(stack, [pos |-> pos, lg |-> lg])
-        /\ pos' = rp
-        /\ lg' = IF Ev.valid THEN Legal(rp) ELSE {}
-        /\ oh' = <<Ev.snap.h, Ev.snap.ph>>
-        /\ UNCHANGED ntr
+  /\ MakeCand({m \in lg : Uci(m) = Ev.uci})
 
+UnmakeTo(top, rp) == pos' = rp /\ lg' = IF rp = top.pos THEN top.lg ELSE Legal(rp)
 Unmake ==
   /\ Ev.ev = "unmake"
   /\ IF stack = <<>>
      THEN /\ Record(<< <<FALSE, "C03", "unmake without make in trace", "">> >>)
           /\ UNCHANGED <<pos, lg, stack, oh, ntr>>
-     ELSE LET top == stack[Len(stack)]
-              rp == Resync(top.pos, Ev.snap)
-          IN /\ Record(SnapChecks(top.pos, Ev.snap, "C03"))
-             /\ pos' = rp /\ lg' = IF rp = top.pos THEN top.lg ELSE Legal(rp)
-             /\ stack' = SubSeq(stack, 1, Len(stack) - 1)
-             /\ oh' = <<Ev.snap.h, Ev.snap.ph>>
-             /\ UNCHANGED ntr
+     ELSE /\ Record(SnapChecks(stack[Len(stack)].pos, Ev.snap, "C03"))
+          /\ UnmakeTo(stack[Len(stack)], Resync(stack[Len(stack)].pos, Ev.snap))
+          /\ stack' = SubSeq(stack, 1, Len(stack) - 1)
+          /\ oh' = <<Ev.snap.h, Ev.snap.ph>>
+          /\ UNCHANGED ntr
 
 \* a panic / abnormal exit observed by the harness: never allowed
 Panic ==
@@ -144,8 +149,7 @@ Denotes(L, s) == \E m \in L : Uci(m) = Trim(s)
 
 \* state unchanged by a read-only call (C13 for rejected input, C03 for internal make/unmake)
 Unchanged(nontrivial) ==
-  /\ LET np == Resync(pos, Ev.snap)
-     IN pos' = np /\ lg' = IF np = pos THEN lg ELSE Legal(np)
+  /\ SetPos(Resync(pos, Ev.snap))
   /\ oh' = <<Ev.snap.h, Ev.snap.ph>>
   /\ ntr' = IF nontrivial THEN ntr \cup {l} ELSE ntr
   /\ UNCHANGED stack
